@@ -87,6 +87,135 @@ type Session struct {
 	ErrFired   int
 	// KeepLog controls whether Log is filled.
 	KeepLog bool
+	// background work: goroutines started by the code under test (rule R13)
+	bg      []*bgTask
+	running *bgTask // the background task that holds the run token, nil = the foreground
+	bgMode  int
+	bgPanic any
+	crash   *Crash
+}
+
+// bgTask is a goroutine of the code under test. It runs only while the
+// foreground has handed it the run token, for a granted number of
+// file-system steps.
+type bgTask struct {
+	resume chan int // steps granted; -1 = until it ends
+	yield  chan struct{}
+	budget int
+	done   bool
+}
+
+// Background modes: when does a goroutine started by the code under test run?
+const (
+	BgEager      = 0 // to its end, at once (as if the call were synchronous)
+	BgDeferred   = 1 // only when somebody waits for it - never, if the process dies first
+	BgInterleave = 2 // one file-system step before each file-system step of the foreground
+)
+
+// SetBgMode selects the background mode of the session.
+func (s *Session) SetBgMode(m int) { s.bgMode = m }
+
+// Go replaces a go statement of the instrumented files (rule R13). Without a
+// session it is the go statement.
+func Go(fn func()) {
+	s := cur
+	if s == nil {
+		go fn()
+		return
+	}
+	if s.dead {
+		return // a dead process starts nothing
+	}
+	t := &bgTask{resume: make(chan int), yield: make(chan struct{})}
+	s.bg = append(s.bg, t)
+	go func() {
+		t.budget = <-t.resume
+		defer func() {
+			if r := recover(); r != nil {
+				if _, isCrash := r.(Crash); !isCrash {
+					s.bgPanic = r
+				}
+			}
+			t.done = true
+			t.yield <- struct{}{}
+		}()
+		// (also when the process is dead by now: every file-system call is
+		// refused then, but the function's own deferred bookkeeping - a
+		// WaitGroup that outlives the simulated process - runs)
+		fn()
+	}()
+	if s.bgMode == BgEager {
+		s.runBg(-1)
+		s.surface()
+	}
+}
+
+// WGWait replaces wg.Wait() of the instrumented files: whatever background
+// work is pending runs to its end first.
+func WGWait(wg *sync.WaitGroup) {
+	if s := cur; s != nil && s.running == nil {
+		s.runBg(-1)
+		s.surface()
+	}
+	wg.Wait()
+}
+
+// runBg hands the run token to every pending background task in turn, each
+// for the given number of file-system steps. Foreground only, s.mu not held.
+func (s *Session) runBg(budget int) {
+	if s.running != nil {
+		return
+	}
+	live := s.bg[:0]
+	for _, t := range s.bg {
+		if t.done {
+			continue
+		}
+		s.running = t
+		t.resume <- budget
+		<-t.yield
+		s.running = nil
+		if !t.done {
+			live = append(live, t)
+		}
+	}
+	s.bg = live
+}
+
+// surface lets the foreground see what happened in the background: a process
+// death there is the death of the process, a Go panic there ends the program.
+func (s *Session) surface() {
+	if p := s.bgPanic; p != nil {
+		s.bgPanic = nil
+		panic(p)
+	}
+	if s.dead && s.crash != nil {
+		panic(*s.crash)
+	}
+}
+
+// Drain lets pending background work run to its end: what a clean exit that
+// waits for its goroutines does.
+func (s *Session) Drain() {
+	if s.dead {
+		return
+	}
+	func() {
+		defer func() { _ = recover() }()
+		s.runBg(-1)
+		s.surface()
+	}()
+}
+
+// Abandon ends the background tasks of a finished or dead incarnation: each
+// is resumed once with the process marked dead, so that its next file-system
+// call unwinds it.
+func (s *Session) Abandon() {
+	was := s.dead
+	s.dead = true
+	s.runBg(-1)
+	s.dead = was
+	s.bgPanic = nil
 }
 
 var cur *Session
@@ -122,6 +251,7 @@ func Begin(p Plan) *Session {
 // End finishes the session: handles that are still open are closed for real
 // and their paths returned.
 func (s *Session) End() (leaked []string) {
+	s.Abandon()
 	s.mu.Lock()
 	defer s.mu.Unlock()
 	for _, f := range s.order {
@@ -199,6 +329,23 @@ func opMatches(ops []string, op string) bool {
 // before is called ahead of a mutating step. It returns a non-nil error when
 // the step must not be performed.
 func (s *Session) before(op, path string) (n int, err error) {
+	if t := s.running; t != nil {
+		// a background task's step: give the token back when the grant is used up
+		if t.budget == 0 {
+			s.mu.Unlock()
+			t.yield <- struct{}{}
+			t.budget = <-t.resume
+			s.mu.Lock()
+		}
+		if t.budget > 0 {
+			t.budget--
+		}
+	} else if s.bgMode == BgInterleave && len(s.bg) > 0 && !s.dead {
+		s.mu.Unlock()
+		s.runBg(1)
+		s.mu.Lock()
+		s.surface()
+	}
 	if s.dead {
 		return 0, ErrDead
 	}
@@ -251,7 +398,9 @@ func (s *Session) die(n int, after bool, op, path string) {
 			h.closed = true
 		}
 	}
-	panic(Crash{Step: n, After: after, Op: op, Path: path})
+	c := Crash{Step: n, After: after, Op: op, Path: path}
+	s.crash = &c
+	panic(c)
 }
 
 func (s *Session) track(f *os.File, path string, write bool) {
